@@ -12,11 +12,16 @@ mirrors pywbem_mock/_mainprovider.py: MainProvider._get_superclass_names, MainPr
   MainProvider.CreateClass, MainProvider.ModifyClass, MainProvider.DeleteClass,
   MainProvider.EnumerateInstanceNames, MainProvider.EnumerateInstances
 mirrors pywbem_mock/_wbemconnection_mock.py: FakedWBEMConnection.add_cimobjects
+mirrors pywbem_mock/_baseprovider.py: BaseProvider.is_subclass, BaseProvider.validate_namespace,
+  BaseProvider.add_namespace, BaseProvider.remove_namespace
+mirrors pywbem_mock/_inmemoryrepository.py: InMemoryRepository.add_namespace, InMemoryRepository.remove_namespace
+mirrors pywbem_mock/_mockmofwbemconnection.py: _MockMOFWBEMConnection.CreateClass
 
 Representation.  Names are `List Char`; every NocaseDict / NocaseList / `.lower()` comparison of the
 code is `ieq` (ASCII lower-casing; the harness generates ASCII names only — recorded assumption).
 Dictionaries are lists in insertion order.  CIM types and qualifier values are opaque tags assigned by
-the harness, except string values (needed for Override / EmbeddedInstance).  One namespace.
+the harness, except string values (needed for Override / EmbeddedInstance).  `State` is the content of one
+namespace; `Repo` (end of file) is the repository of several namespaces.
 The subclass relation (`children`, `subNamesDeep`, `subtreeList`, `Desc`) is meant to be reused by C13.
 
 The model mirrors the code INCLUDING its open defects (known findings C12-classqual-not-inherited,
@@ -569,6 +574,9 @@ inductive Op where
   | supers (n : Name)                -- _get_superclass_names
   | addInst (i : Inst)               -- add_cimobjects(CIMInstance)
   | enumInsts (n : Name)             -- EnumerateInstanceNames / EnumerateInstances
+  | addDecl (d : QDecl)              -- add_cimobjects(CIMQualifierDeclaration)
+  | mofCreate (c : Cls)              -- _MockMOFWBEMConnection.CreateClass (what the MOF compiler calls)
+  | isSub (k sup : Name)             -- BaseProvider.is_subclass
   deriving Repr, Inhabited
 
 inductive Out where
@@ -577,6 +585,7 @@ inductive Out where
   | classes (l : List Cls)
   | names (l : List Name)
   | insts (l : List Inst)
+  | flag (b : Bool)
   | err (e : PyExc)
   deriving Repr, DecidableEq, Inhabited
 
@@ -663,6 +672,59 @@ def enumInsts (s : State) (n : Name) : Except PyExc (List Inst) :=
   if !(hasClass s.classes n) then .error (.cimError CIM_ERR_INVALID_CLASS)
   else .ok (s.insts.filter (fun i => inNames (subtreeList s.classes n) i.cls))
 
+/-- one dependency test of _MockMOFWBEMConnection.CreateClass: the referenced / embedded class must be
+    gettable (the new class itself is in the compiler's cache) -/
+def mofDepCheck (cs : List Cls) (clsName : Name) (ty : Nat) (refcls : Option Name) (quals : List Qual) :
+    Except PyExc Unit :=
+  if ty == tyReference then
+    match refcls with
+    | none => .error .valueError            -- NocaseDict refuses the key None
+    | some r => if ieq r clsName || hasClass cs r then .ok () else .error errParam
+  else if ty == tyString then
+    match findQual quals nEmbeddedInstance with
+    | none => .ok ()
+    | some q =>
+      match q.val with
+      | .null => .ok ()
+      | .tok _ => .error .attributeError
+      | .str v => if ieq v clsName || hasClass cs v then .ok () else .error errParam
+  else .ok ()
+
+def mofDeps (cs : List Cls) (c : Cls) : Except PyExc Unit :=
+  match allE (fun (p : Elem) => mofDepCheck cs c.name p.ty p.refcls p.quals) c.props with
+  | .error e => .error e
+  | .ok _ =>
+    allE (fun (m : Elem) => allE (fun (p : Param) => mofDepCheck cs c.name p.ty p.refcls p.quals) m.params) c.meths
+
+/-- mirrors pywbem_mock/_mockmofwbemconnection.py: _MockMOFWBEMConnection.CreateClass (fresh class cache):
+    superclass and dependency pre-checks of the MOF compiler's connection, then CreateClass -/
+def mofCreateClass (s : State) (c : Cls) : Except PyExc State :=
+  if superSet c.super && !(hasClass s.classes (c.super.getD [])) then
+    .error (.cimError CIM_ERR_INVALID_SUPERCLASS)
+  else
+    match mofDeps s.classes c with
+    | .error e => .error e
+    | .ok _ => createClass s c
+
+/-- mirrors pywbem_mock/_baseprovider.py: BaseProvider.is_subclass (walks the superclass chain upwards;
+    `fuel` as for `superChain`) -/
+def isSubclass : Nat → List Cls → Name → Name → Except PyExc Bool
+  | 0, _, _, _ => .error .recursionError
+  | fuel + 1, cs, k, sup =>
+    match findClass cs k with
+    | none => .error .keyError
+    | some c =>
+      if ieq k sup then .ok true
+      else
+        match c.super with
+        | none => if hasClass cs sup then .ok false else .error .keyError
+        | some s => isSubclass fuel cs s sup
+
+/-- add_cimobjects(CIMQualifierDeclaration): `qualifier_store.create` -/
+def addDecl (s : State) (d : QDecl) : Except PyExc State :=
+  if s.decls.any (fun x => ieq x.name d.name) then .error .valueError
+  else .ok { s with decls := s.decls ++ [d] }
+
 def step (s : State) (op : Op) : State × Out :=
   match op with
   | .create c => match createClass s c with | .ok s' => (s', .done) | .error e => (s, .err e)
@@ -675,6 +737,12 @@ def step (s : State) (op : Op) : State × Out :=
   | .supers n => match superNames s.classes n with | .ok l => (s, .names l) | .error e => (s, .err e)
   | .addInst i => ({ s with insts := s.insts ++ [i] }, .done)
   | .enumInsts n => match enumInsts s n with | .ok l => (s, .insts l) | .error e => (s, .err e)
+  | .addDecl d => match addDecl s d with | .ok s' => (s', .done) | .error e => (s, .err e)
+  | .mofCreate c => match mofCreateClass s c with | .ok s' => (s', .done) | .error e => (s, .err e)
+  | .isSub k sup =>
+    match isSubclass (s.classes.length + 1) s.classes k sup with
+    | .ok b => (s, .flag b)
+    | .error e => (s, .err e)
 
 def run (s : State) : List Op → State × List Out
   | [] => (s, [])
@@ -682,6 +750,79 @@ def run (s : State) : List Op → State × List Out
     let r := step s op
     let rr := run r.1 ops
     (rr.1, r.2 :: rr.2)
+
+/-! ### several namespaces -/
+
+/-- `namespace.strip('/')` -/
+def stripSlash (s : Name) : Name :=
+  ((s.dropWhile (fun c => c == '/')).reverse.dropWhile (fun c => c == '/')).reverse
+
+/-- the CIM repository: namespaces (NocaseDict, insertion order) with their content -/
+structure Repo where
+  nss : List (Name × State) := []
+  deriving Repr, Inhabited
+
+def findNs (r : Repo) (ns : Name) : Option State :=
+  (r.nss.find? (fun e => ieq e.1 (stripSlash ns))).map (·.2)
+
+def hasNs (r : Repo) (ns : Name) : Bool := r.nss.any (fun e => ieq e.1 (stripSlash ns))
+
+/-- store the new content of an existing namespace (same dictionary slot) -/
+def setNs (r : Repo) (ns : Name) (s : State) : Repo :=
+  { nss := r.nss.map (fun e => if ieq e.1 (stripSlash ns) then (e.1, s) else e) }
+
+inductive ROp where
+  | inNs (ns : Name) (op : Op)       -- any class / instance / declaration operation with namespace=ns
+  | addNs (ns : Name)                -- add_namespace
+  | removeNs (ns : Name)             -- remove_namespace
+  deriving Repr, Inhabited
+
+def CIM_ERR_NAMESPACE_NOT_EMPTY : Nat := Pywbem.Generated.Resolve.CIM_ERR_NAMESPACE_NOT_EMPTY
+
+/-- what an operation answers when its namespace does not exist: the provider methods and
+    add_cimobjects call `validate_namespace` (CIM_ERR_INVALID_NAMESPACE); the two helper functions the
+    harness calls with a class store (`_get_superclass_names`, `is_subclass`) fail in
+    `get_class_store` with KeyError -/
+def missingNsError (op : Op) : PyExc :=
+  match op with
+  | .supers _ => .keyError
+  | .isSub _ _ => .keyError
+  | _ => .cimError CIM_ERR_INVALID_NAMESPACE
+
+def isEmptyState (s : State) : Bool := s.classes.isEmpty && s.decls.isEmpty && s.insts.isEmpty
+
+/-- mirrors pywbem_mock/_baseprovider.py: BaseProvider.validate_namespace / add_namespace /
+    remove_namespace (names that are not Interop namespace names: harness assumption) -/
+def rstep (r : Repo) (op : ROp) : Repo × Out :=
+  match op with
+  | .inNs ns o =>
+    match findNs r ns with
+    | none => (r, .err (missingNsError o))
+    | some s =>
+      let res := step s o
+      (setNs r ns res.1, res.2)
+  | .addNs ns =>
+    if hasNs r ns then (r, .err (.cimError CIM_ERR_ALREADY_EXISTS))
+    else ({ nss := r.nss ++ [(stripSlash ns, {})] }, .done)
+  | .removeNs ns =>
+    match findNs r ns with
+    | none => (r, .err (.cimError CIM_ERR_NOT_FOUND))
+    | some s =>
+      if isEmptyState s then ({ nss := r.nss.filter (fun e => !(ieq e.1 (stripSlash ns))) }, .done)
+      else (r, .err (.cimError CIM_ERR_NAMESPACE_NOT_EMPTY))
+
+def rrun (r : Repo) : List ROp → Repo × List Out
+  | [] => (r, [])
+  | op :: ops =>
+    let x := rstep r op
+    let rr := rrun x.1 ops
+    (rr.1, x.2 :: rr.2)
+
+/-- the operations of a repository history that were addressed to (a spelling of) namespace `ns` -/
+def projectOps (ns : Name) : List ROp → List Op
+  | [] => []
+  | .inNs m o :: rest => if ieq (stripSlash m) (stripSlash ns) then o :: projectOps ns rest else projectOps ns rest
+  | _ :: rest => projectOps ns rest
 
 /-! ### Spec: what the property demands (short, independent of the resolver code) -/
 
